@@ -165,12 +165,12 @@ def mc(families, impl, mode, invariants, properties, liveness=False, timeout=300
 # per property: invariants/properties of Sched.tla, families, negative controls
 DAG_Q = ["pair", "chain3p", "fanin1", "diamondp", "pullchain2", "pulltwice", "chain3d"]
 DAG_T = DAG_Q + ["pairL", "chain3t", "fanin2", "fanout", "fanoutshared", "diamondt", "pair3", "pairXL", "trigger"]
-CYC_Q = ["ring2", "pullring", "pullringtail", "ringbreak", "ring2tail", "ringfanin"]
+CYC_Q = ["ring2", "pullring", "pullringtail", "ringbreak", "ring2tail", "ringfanin", "ringavg"]
 CYC_T = CYC_Q + ["ring3", "ring4"]
 
 PLAN = {
     "C01": dict(inv=["NoRefusedPull"], prop=["AvailableAtUpdate"], live=False,
-                quick=DAG_Q + ["pullring", "ringbreak", "ring2tail"], thorough=DAG_T + CYC_T,
+                quick=DAG_Q + ["pullring", "ringbreak", "ring2tail", "ringavg"], thorough=DAG_T + CYC_T,
                 neg=[(["pair"], "countabove", ["NoRefusedPull", "AvailableAtUpdate"]),
                      (["pulltwice"], "depmin", ["NoRefusedPull", "AvailableAtUpdate"])],
                 known_mc=[(["pullfanout"], "intended", ["NoRefusedPull"], "C01-pull-fanout-eviction"),
@@ -286,6 +286,10 @@ def check(pid, tier):
         # C03: a valid (acyclic) composition must run to the end: a cycle report there is also a
         # termination failure
         if pid == "C03" and zone in ("dag", "resolved") and base in ("false-cycle", "false-cycle-zone"):
+            p = pid
+        # C03: "for every valid composition run(end_time) returns": an error out of the connect phase of a
+        # valid composition is also a failure to run to the end
+        if pid == "C03" and zone in ("dag", "resolved") and base == "connect-error":
             p = pid
         # C01: a component updated while it waits for itself was updated before its input data exists
         if pid == "C01" and base == "cycle-not-reported":
